@@ -1,0 +1,11 @@
+//go:build verif
+// +build verif
+
+// verif hook for property C13 (add-only, compiled only with -tags verif): exports the rule file loader.
+
+package mod_key_log
+
+func VerifC13KeyLogConfLoad(filename string) error {
+	_, err := keyLogConfLoad(filename)
+	return err
+}
